@@ -956,11 +956,10 @@ fn gen_ce(ch: &mut Chooser, float: bool, depth: u32, i: usize, types: &[bool]) -
 const PERMS3: [[usize; 3]; 6] = [[0, 1, 2], [2, 1, 0], [1, 0, 2], [0, 2, 1], [1, 2, 0], [2, 0, 1]];
 
 /// None = the generated const set is undefined (division by zero): not a compilable program by construction
-fn gen_const_case(ch: &mut Chooser, tool: Tool, depth: u32) -> Option<Case> {
+fn gen_const_case(ch: &mut Chooser, tool: Tool, depth: u32, n: usize) -> Option<Case> {
     let game = tool.game;
     let lang = sub_lang(tool);
-    // the number of consts and their declaration order are a full product (free choices)
-    let n = 1 + ch.pick_free(3);
+    // the number of consts (outer loop) and their declaration order are a full product (free choices)
     let types: Vec<bool> = (0..n).map(|_| ch.pick(2) == 1).collect();
     let names: Vec<String> = (0..n).map(|i| format!("K{i}")).collect();
     let mut defs: Vec<(bool, CE)> = vec![];
@@ -1047,11 +1046,14 @@ fn enumerate_cases(thorough: bool) -> (Vec<Case>, GenStats) {
         // quick: the full const space on one format (ANM th12), a smaller bound on the others (const evaluation is format-independent)
         let full = matches!((tool.kind, tool.game), (Kind::Anm, Game::Th12));
         let (cb, cd) = if thorough { (if full { 3 } else { 2 }, 2) } else if full { (2, 2) } else { (1, 2) };
-        let st = explore_dfs(cb, scale * 8, &|ch| gen_const_case(ch, tool, cd), &mut |_, c| {
-            stats.generated += 1;
-            match c { Some(c) => if seen.insert((c.tool, c.src.clone())) { cases.push(c); }, None => stats.undefined_consts += 1 }
-        });
-        if st.capped { stats.capped = true; }
+        for n in 1..=3usize {
+            let b = if n == 3 && cb > 1 { cb - 1 } else { cb };
+            let st = explore_dfs(b, scale * 8, &|ch| gen_const_case(ch, tool, cd, n), &mut |_, c| {
+                stats.generated += 1;
+                match c { Some(c) => if seen.insert((c.tool, c.src.clone())) { cases.push(c); }, None => stats.undefined_consts += 1 }
+            });
+            if st.capped { stats.capped = true; }
+        }
     }
     // interleave the formats (simplest cases of every format first), so that a wall cap cuts all formats evenly
     let mut ord: BTreeMap<Tool, usize> = BTreeMap::new();
